@@ -87,9 +87,13 @@ func TimeStampToCdr(t *time.Time) cdrType.TimeStamp {
 		ts[6] = byte('+')
 	} else {
 		ts[6] = byte('-')
+		tz = -tz
 	}
-	ts[7] = (byte(tz/3600/10) << 4) | (byte(tz / 3600 % 10))
-	ts[8] = (byte(tz%3600/10) << 4) | (byte(tz % 3600 % 10))
+	// hh and mm of the deviation from UTC, BCD encoded
+	tzHour := tz / 3600
+	tzMin := tz % 3600 / 60
+	ts[7] = (byte(tzHour/10) << 4) | (byte(tzHour % 10))
+	ts[8] = (byte(tzMin/10) << 4) | (byte(tzMin % 10))
 	cdrTimeStamp := cdrType.TimeStamp{
 		Value: ts,
 	}
